@@ -27,6 +27,7 @@ const (
 	actCommit actKind = 'M'
 	actStable actKind = 'K'
 	actInit   actKind = 'I'
+	actList   actKind = 'L' // directory listing; only recorded when it fails
 )
 
 type action struct {
@@ -40,6 +41,8 @@ type action struct {
 	isNil  bool
 	failed bool
 	scrub  bool // all-zero write / sync following only such writes: not counted
+	// a failed creation that left the empty, unallocated file behind
+	leftover bool
 }
 
 type pwrite struct {
@@ -70,6 +73,10 @@ type crashFS struct {
 	idsUsed     map[uint64]string
 	dupID       string
 	faultsFired map[string]int
+	// fault modes; in force only while a counted fault is armed (faultIn >= 0):
+	failDeletes  bool // every file deletion fails, the file stays
+	failList     bool // the next directory listing fails (one-shot)
+	createLeaves bool // a creation hit by the counted fault leaves the empty file behind
 	// base: the disk right after the last crash; acts are the actions since then,
 	// numbered from baseCount
 	base      *crashFS
@@ -129,13 +136,34 @@ func isAllZero(b []byte) bool {
 
 func (c *crashFS) ListDir(dir string) ([]string, error) {
 	c.mu.Lock()
+	if c.faultIn >= 0 && c.failList {
+		c.failList = false
+		c.acts = append(c.acts, &action{kind: actList, failed: true})
+		c.noteFired("L")
+		c.mu.Unlock()
+		return nil, errInjected
+	}
+	c.mu.Unlock()
+	return c.listNames(), nil
+}
+
+// listNames: the directory as the harness sees it (never fails)
+func (c *crashFS) listNames() []string {
+	c.mu.Lock()
 	defer c.mu.Unlock()
 	var names []string
 	for n := range c.files {
 		names = append(names, n)
 	}
 	sort.Strings(names)
-	return names, nil
+	return names
+}
+
+func (c *crashFS) noteFired(kind string) {
+	if c.faultsFired == nil {
+		c.faultsFired = map[string]int{}
+	}
+	c.faultsFired[kind]++
 }
 
 func (c *crashFS) Create(dir, name string, size uint64) (types.WritableFile, error) {
@@ -148,6 +176,13 @@ func (c *crashFS) Create(dir, name string, size uint64) (types.WritableFile, err
 		return nil, fmt.Errorf("create %s: %w", name, os.ErrExist)
 	}
 	if !c.record(a) {
+		if c.createLeaves {
+			// the file was created, its preallocation failed: an empty file stays
+			a.leftover = true
+			c.noteCreated(name)
+			c.files[name] = &cfile{}
+			c.noteFired("C-left")
+		}
 		return nil, errInjected
 	}
 	c.noteCreated(name)
@@ -164,6 +199,12 @@ func (c *crashFS) Delete(dir, name string) error {
 		a.failed = true
 		c.acts = append(c.acts, a)
 		return fmt.Errorf("delete %s: %w", name, os.ErrNotExist)
+	}
+	if c.faultIn >= 0 && c.failDeletes {
+		a.failed = true
+		c.acts = append(c.acts, a)
+		c.noteFired("D")
+		return errInjected
 	}
 	if !c.record(a) {
 		return errInjected
@@ -409,6 +450,10 @@ func (c *crashFS) imageAt(k int, keepFile, keepBatch map[string]bool, tornMask f
 			n++
 		}
 		if a.failed {
+			if a.leftover {
+				r.files[a.name] = &cfile{}
+				r.noteCreated(a.name)
+			}
 			continue
 		}
 		switch a.kind {
